@@ -554,6 +554,15 @@ func (s *Solver) fallback(pc []*Term, extra *Term, modelVars []*Term) (Result, M
 		go func(name string, argv []string) {
 			defer wg.Done()
 			r, m := runOneShot(ctx, argv, script, len(modelVars) > 0)
+			if r == Sat && len(modelVars) > 0 {
+				// a sat verdict whose model lacks a requested variable is unusable
+				for _, v := range modelVars {
+					if _, ok := m[v.Name]; !ok {
+						r, m = Unknown, nil
+						break
+					}
+				}
+			}
 			ch <- ans{r, m, name}
 		}(fs.name, fs.argv)
 	}
